@@ -113,4 +113,7 @@ def classify(case, impl, fail):
     for key in ('override-leaves-ref-watcher', 'failed-sync-leaves-valid-links-stale'):
         if why.startswith(f'finding:{key}:'):
             return key
+    # a hard violation: from here on (shrinking, replay) the driver judges this case without the known
+    # findings, so that minimisation cannot turn it into one of them
+    case['strict'] = True
     return None
